@@ -27,7 +27,8 @@ ACCENT = "éèêëàâäôöùûüçñãõÉÀÖÜßøåÆ"
 FOURBYTE = "😀🏠🔥💧🌡🪟𝔸𐍈"
 # characters whose Unicode normal forms differ from themselves (combining marks after a base letter, compatibility and
 # presentation forms): a name is a byte string to the device, any "normalisation" on the way changes what was asked for
-NOT_NFC = ["e\u0301", "a\u0308", "o\u0302", "A\u030a", "\u212b", "\u2126", "\ufb2a", "\ufb1d", "\u05e9\u05c1", "n\u0303", "\ufb01", "x", " "]
+BOM = "\ufeff"      # a legal code point; codecs like utf-8-sig silently eat it at the start of a string
+NOT_NFC = ["e\u0301", "a\u0308", "o\u0302", "A\u030a", "\u212b", "\u2126", "\ufb2a", "\ufb1d", "\u05e9\u05c1", "n\u0303", "\ufb01", "x", " ", "\ufeff"]
 ALPHABETS = [ASCII, HEBREW, ACCENT, FOURBYTE, ASCII + HEBREW + ACCENT + FOURBYTE, NOT_NFC]
 
 
@@ -40,12 +41,18 @@ def names(min_chars=0, max_chars=40):
     return st.sampled_from(ALPHABETS).flatmap(of)
 
 
+def dst_timestamps(zones=("Asia/Jerusalem", "America/New_York", "Europe/London", "Australia/Lord_Howe", "America/Havana")):
+    """(zone, epoch) pairs whose epoch lies in the hours around a UTC-offset change of that zone."""
+    from . import vclock
+    return st.sampled_from(list(zones)).flatmap(lambda z: st.sampled_from(vclock.transition_epochs(z)).map(lambda t: (z, t)))
+
+
 def accepted_name(s):
     return len(s) >= 2 and len(s.encode("utf-8")) <= 32
 
 
 accepted_names = names(2, 32).filter(accepted_name) | st.sampled_from(
-    ["ab", "x" * 32, "שלום עולם", "א" * 16, "😀" * 8, "é" * 16, "My Boiler", "a😀", "Cafe\u0301 boiler", "\u212bngstrom", "\ufb2a\ufb2a"])
+    ["ab", "x" * 32, "שלום עולם", "א" * 16, "😀" * 8, "é" * 16, "My Boiler", "a😀", "Cafe\u0301 boiler", "\u212bngstrom", "\ufb2a\ufb2a", "\ufeffBoiler", "\ufeff\ufeff"])
 
 minutes_ok = st.one_of(st.integers(0, 71_582_788), st.sampled_from([0, 1, 2, 59, 60, 61, 90, 1440, 71_582_787, 71_582_788]))
 shutdown_ok = st.one_of(st.integers(3600, 86399), st.sampled_from([3600, 3601, 3659, 3660, 86340, 86341, 86399, 7200, 5400]))
@@ -64,9 +71,14 @@ def ir_specs(special=None, lens=None, dense=None, toggle=None):
         ids = irset.SPECIAL_SWING_IDS if use_special else irset.ORDINARY_IDS
         modes = [m for i, m in enumerate(irset.MODES) if modes_mask >> i & 1] or ["cool"]
         lo, hi = min(trange), max(trange)
-        return {"id": ids[idn % len(ids)], "toggle": tog if toggle is None else toggle, "modes": modes,
+        spec = {"id": ids[idn % len(ids)], "toggle": tog if toggle is None else toggle, "modes": modes,
                 "tmin": lo, "tmax": hi, "density": dens if dense is None else (100 if dense else dens),
                 "seed": seed, "lens": ln if lens is None else lens, "fun": bool(use_special), "off": off}
+        if seed % 7 == 0 and hi > lo:
+            spec["lonely_min"] = True
+        if seed % 5 == 0:
+            spec["auto_temps"] = [max(10, lo - 3), min(60, hi + 4)]
+        return spec
     return st.tuples(
         st.booleans(), st.integers(0, 9), st.booleans(), st.integers(1, 31),
         st.tuples(st.integers(10, 40), st.integers(10, 40)),
